@@ -13,6 +13,12 @@ KG = "kg/(m2*h*kPa)"
 def make_experiments(rng, comp, n, online, stated_mode, mixed_units):
     """n experiments at distinct temperatures (>= 1 K apart), any order."""
     temps = []
+    if n >= 2 and rng.random() < 0.15:
+        # all experiments of the component within a few kelvin (1-3 K apart): the regression of ln P on 1/T is still well defined
+        t = rng.uniform(275.0, 395.0)
+        for _ in range(n):
+            temps.append(round(t, 6))
+            t += rng.uniform(1.0, 3.0)
     while len(temps) < n:
         t = round(rng.uniform(273.0, 400.0), rng.choice([0, 1, 2, 6]))
         if all(abs(t - u) >= 1.0 for u in temps):
